@@ -7,8 +7,10 @@
 (***************************************************************************)
 EXTENDS SwampKV, Json
 
-CONSTANTS Family,   \* which alphabet: "set" "del" "inc" "u32" "mixed" "reload" "expiry"
+CONSTANTS Family,   \* which alphabet: "set" "del" "inc" "u32" "mixed" "reload" "expiry", or "c06" = each of the five C06 families
           MaxOps
+
+VARIABLE fam        \* the family this behaviour draws its requests from
 
 Strict == INSTANCE SwampKV WITH Dev <- {}
 Keys4 == <<"k1", "k2", "k3", "k4">>
@@ -107,14 +109,32 @@ Alphabet(f) ==
   CASE f = "set" -> ASet [] f = "del" -> ADel [] f = "inc" -> AInc [] f = "u32" -> AU32
     [] f = "mixed" -> AMixed [] f = "reload" -> AReload [] f = "expiry" -> AExpiry
 
-Next == \E q \in Alphabet(Family) : Call(q)
-Spec == Init /\ [][Next]_vars
+\* small cores of the alphabets: ALL histories of length 4 over them are replayed on the real Gateway
+Core(f) ==
+  CASE f = "set" -> {SetQ(TRUE, TRUE, <<It("k1", "str", 1)>>), SetQ(FALSE, TRUE, <<It("k1", "str", 1)>>), SetQ(TRUE, FALSE, <<It("k1", "str", 1)>>),
+                     Upsert(<<It("k1", "void", 0)>>), Upsert(<<ItM("k1", "str", 1, 2, 1, 12)>>),
+                     KeysQ("Get", <<"k1", "k2">>), KeysQ("Delete", <<"k1">>), Plain("IsSwampExist")}
+    [] f = "del" -> {Upsert(<<It("k1", "i8", 5), It("k2", "str", 0)>>), Upsert(<<It("k2", "f64", 2)>>), KeysQ("Delete", <<"k2", "k1">>),
+                     KeysQ("Delete", <<"k1">>), KeysQ("ShiftByKeys", <<"k3", "k2", "k9">>), KeysQ("AreKeysExist", <<"k1", "k2", "k9">>),
+                     Plain("GetAll"), Plain("Count")}
+    [] f = "inc" -> {IncQ("i8", "k1", 1, NoCond, NoMeta, NoMeta), IncQ("i8", "k1", 3, Cnd("gt", 0), NoMeta, NoMeta),
+                     IncQ("i8", "k1", 1, Cnd("lt", 0), Mt(FALSE, 1, FALSE, 0, 12), Mt(FALSE, 0, TRUE, 2, 13)),
+                     IncQ("u16", "k1", 2, Cnd("ge", 2), NoMeta, NoMeta), Upsert(<<It("k1", "void", 0)>>),
+                     KeysQ("Get", <<"k1", "k2">>), KeysQ("Delete", <<"k1">>), Plain("Count")}
+    [] f = "u32" -> {PushQ(<<Pr("k1", <<1>>)>>), PushQ(<<Pr("k1", <<2, 1, 2>>)>>), DelQ(<<Pr("k1", <<1>>)>>), DelQ(<<Pr("k1", <<1, 2, 3>>)>>),
+                     KeyQ("U32Size", "k1"), Upsert(<<It("k1", "str", 1)>>), KeysQ("Get", <<"k1", "k2">>), Plain("IsSwampExist")}
+    [] f = "mixed" -> {Upsert(<<It("k1", "str", 1)>>), Upsert(<<It("k1", "void", 0)>>), IncQ("i8", "k1", 1, Cnd("gt", 1), Mt(FALSE, 1, FALSE, 0, 0), NoMeta),
+                       PushQ(<<Pr("k1", <<1>>)>>), DelQ(<<Pr("k1", <<1>>)>>), KeysQ("ShiftByKeys", <<"k2", "k1">>), KeysQ("Get", <<"k1", "k2">>), Plain("Count")}
+    [] OTHER -> {}
+
+Next == (\E q \in Alphabet(fam) : Call(q)) /\ UNCHANGED fam
+Spec == (Init /\ fam \in (IF Family = "c06" THEN {"set", "del", "inc", "u32", "mixed"} ELSE {Family})) /\ [][Next]_<<vars, fam>>
 Bounded == ops <= MaxOps
-mcview == <<store, pend, open, disk, wq, mode, ops, last.ret>>
+mcview == <<store, pend, open, disk, wq, mode, ops, last.ret, fam>>
 
 \* export of the alphabets for the conformance driver (evaluated by the Gen config)
 Families == {"set", "del", "inc", "u32", "mixed", "reload", "expiry"}
-ExportAlphabets == \A f \in Families : PrintT(ToJson([family |-> f, reqs |-> Alphabet(f)]))
+ExportAlphabets(dummy) == \A f \in Families : PrintT(ToJson([family |-> f, reqs |-> Alphabet(f), core |-> Core(f)]))
 
 -----------------------------------------------------------------------------
 (* state invariants *)
@@ -162,7 +182,8 @@ SetStatusTruth ==
 \* a written key holds exactly the written value
 SetWrites ==
   [][(Q.op = "Set" /\ Ok /\ R.sw = "") =>
-       \A i \in DOMAIN Q.items : R.st[i] \in {"NEW", "UPDATED"} => A[Q.items[i].k].c = Want(Q.items[i])]_vars
+       \A i \in DOMAIN Q.items :
+          (R.st[i] \in {"NEW", "UPDATED"} \/ (R.st[i] = "NOTHING_CHANGED" /\ Q.over)) => A[Q.items[i].k].c = Want(Q.items[i])]_vars
 
 SwampErrorsNoEffect == [][(Q.op = "Set" /\ Ok /\ R.sw # "") => (Data(A) = Data(B) /\ R.st = <<>>)]_vars
 
